@@ -15,9 +15,9 @@ func init() {
 			"slice growth follows gc's growslice (nextslicecap + size classes) so that spare capacity shared between clones is modelled",
 		}, stdAssumptions...),
 		Models:      []string{modelSig, modelCodec, modelCtx},
-		Explanation: "after every step of every interleaving, the resolved facts, symbol table, serialized form and revocation ids of every live token are compared with the snapshot taken at its creation; each child must contain exactly its own caller's fact",
+		Explanation: "after every step of every interleaving, the resolved facts, symbol table, serialized form and revocation ids of every live token are compared with the snapshot taken at its creation; each child must contain exactly its own caller's fact; a builder used again after Build (built twice; built, filled, built again) and two builders of one parent whose blocks are appended in sequence never change what was built before, and whatever they build without an error holds exactly the caller's facts, in memory and after a reload",
 		LevelText:   "Bounded symbolic model checking over all interleavings of two operation scripts on a shared parent: no operation changes the observable content of the parent, of an already built block, or of a sibling token; every derived token contains exactly what its own builder was given.",
-		LevelNote:   "Two scripts, one fact per derived block; deeper families (grandchildren) are not explored.",
+		LevelNote:   "Two scripts, one fact per derived block; deeper families (grandchildren) are not explored. Writes by the caller into slices the API returned are not operations of the property and are not explored.",
 		DesignRef:   "DESIGN.md §6 C08",
 	})
 }
